@@ -508,41 +508,84 @@ def sym_json_dumps(obj, **kw):
     return r
 
 
+def sym_expandtabs(text, tabsize=8):
+    """str.expandtabs on a symbolic string (column resets at \n and \r)."""
+    e = Engine.cur
+    out = []
+    col = 0
+    for c in text.cs:
+        if _real_isinstance(c, int):
+            istab, isnl = c == 9, c in (10, 13)
+        else:
+            istab = e.decide(c == 9)
+            isnl = (not istab) and e.decide(z3.Or(c == 10, c == 13))
+        if istab:
+            k = tabsize - (col % tabsize) if tabsize > 0 else 0
+            out.extend([32] * k)
+            col += k
+        elif isnl:
+            out.append(c)
+            col = 0
+        else:
+            out.append(c)
+            col += 1
+    return SymStr(out)
+
+
+_TW_WS = ranges_of(lambda ch: ch in "\t\n\x0b\x0c\r ")
+_UNI_WS = PRED["isspace"]
+
+
 def tw_wrap_model(text, width=70, **kw):
-    """Model of textwrap.wrap for texts that fit in one line (len(text) <= width): collapse whitespace runs to
-    single spaces, drop leading/trailing whitespace, empty -> []."""
+    """Model of textwrap.TextWrapper.wrap for texts that fit on ONE line (anything longer -> Unsupported).
+
+    textwrap: expandtabs; each of '\t\n\x0b\x0c\r ' becomes a space; the text is cut into alternating chunks of spaces and
+    non-spaces; nothing is collapsed; leading whitespace of the first line is kept; ONE trailing chunk is dropped if
+    `chunk.strip() == ''` (str.strip: Unicode whitespace, so a chunk made only of U+2028 / NBSP / \x1c.. counts); a text
+    with no remaining chunk yields no line."""
     allowed = {"initial_indent", "subsequent_indent", "break_long_words", "break_on_hyphens", "replace_whitespace", "drop_whitespace"}
     if set(kw) - allowed:
         raise Unsupported("textwrap options %r" % (kw,))
+    if kw.get("replace_whitespace", True) is not True or kw.get("drop_whitespace", True) is not True:
+        raise Unsupported("textwrap with replace_whitespace/drop_whitespace disabled")
     ii = kw.get("initial_indent", "")
+    e = Engine.cur
+    text = sym_expandtabs(SymStr.lift(text))
     if len(text) + len(ii) > width:
         raise Unsupported("symbolic text longer than wrap width")
-    # textwrap: expand tabs, replace each whitespace char in '\t\n\x0b\x0c\r ' with space; split into chunks on
-    # whitespace; drop leading/trailing whitespace chunks
-    ws = ranges_of(lambda ch: ch in "\t\n\x0b\x0c\r ")
-    e = Engine.cur
-    words = []
-    cur = []
+    # translate + chunk
+    chunks = []  # (is_space_chunk, [chars])
     for c in text.cs:
-        isws = (chr(c) in "\t\n\x0b\x0c\r ") if _real_isinstance(c, int) else e.decide(zin(c, ws))
-        if isws:
-            if cur:
-                words.append(cur)
-                cur = []
+        if _real_isinstance(c, int):
+            isws = chr(c) in "\t\n\x0b\x0c\r "
         else:
-            cur.append(c)
-    if cur:
-        words.append(cur)
-    if not words:
+            isws = e.decide(zin(c, _TW_WS))
+        ch = 32 if isws else c
+        if chunks and chunks[-1][0] == isws:
+            chunks[-1][1].append(ch)
+        else:
+            chunks.append((isws, [ch]))
+    if chunks:
+        sp, last = chunks[-1]
+        if sp:
+            strip_empty = True
+        else:
+            strip_empty = True
+            for c in last:
+                if _real_isinstance(c, int):
+                    if not chr(c).isspace():
+                        strip_empty = False
+                        break
+                elif not e.decide(zin(c, _UNI_WS)):
+                    strip_empty = False
+                    break
+        if strip_empty:
+            chunks.pop()
+    if not chunks:
         return []
     out = list(SymStr.lift(ii).cs)
-    for i, w in enumerate(words):
-        if i:
-            out.append(32)
-        out.extend(w)
-    if len(out) > width:
-        raise Unsupported("symbolic text longer than wrap width")
-    # hyphen splitting does not matter when everything fits on one line
+    for _, ch in chunks:
+        out.extend(ch)
     return [SymStr(out).simp()]
 
 
@@ -722,6 +765,11 @@ def sx_call(f, *a, **k):
     if f is os.path.join or f is os.path.exists:
         if _sym_in(a):
             raise Unsupported("os.path with symbolic string")
+    # fully concrete SymStr values must not leak into uninstrumented callees
+    if any(type(x) is SymStr for x in a):
+        a = tuple(x.concrete() if (type(x) is SymStr and x.is_concrete()) else x for x in a)
+    if k and any(type(x) is SymStr for x in k.values()):
+        k = {kk: (x.concrete() if (type(x) is SymStr and x.is_concrete()) else x) for kk, x in k.items()}
     return f(*a, **k)
 
 
